@@ -18,6 +18,7 @@
     expression_boundaries_text_template scan_old_line_roundtrip_partial
     tokenize_print_roundtrip reader_inverts_layout interpolate_any_number_of_pieces
     raw_print_roundtrip_tokens raw_print_roundtrip source_text_eq_doc raw_loop_commutes
+    scan_old_print_roundtrip raw_print_roundtrip_tokens_old raw_print_roundtrip_old source_text_eq_doc_old
 -/
 import Genshi.Lemmas.TmplSimMain
 import Genshi.Lemmas.TmplSimRev
@@ -30,6 +31,7 @@ import Genshi.Lemmas.TmplText
 import Genshi.Lemmas.TmplScanText
 import Genshi.Lemmas.TmplScanOld
 import Genshi.Lemmas.TmplInv
+import Genshi.Lemmas.TmplInvOld
 import Genshi.Lemmas.TmplRawLoop
 namespace Genshi.Props.C04
 open Genshi Genshi.Tmpl
@@ -797,6 +799,57 @@ example : nodesOk false exInv = true ∧ Genshi.Py.Lex.unmodelled (nodesNew exIn
 
 example : rawToks false false (nodesNew exInv) = .ok (toTokss exInv) :=
   raw_print_roundtrip false exInv (by decide) (by decide)
+
+/-! #### the old text syntax -/
+
+/-- **Printer round trip (old syntax)** — the full statement `scan_old_line_roundtrip_partial` left open.
+    Every well-formed old-syntax token list (non-empty maximal texts; directive / comment lines
+    `[blanks]#body` whose body starts with a word character or `#` and holds no line feed; a text in
+    front of a line ends with a line feed), printed with `\#` for every `#` of a text, is scanned to
+    itself: `(scanOld (printOld ts)).map cookOld = ts`. -/
+theorem scan_old_print_roundtrip (ts : List OCTok) (wf : WFOld ts) : (scanOld (printOld ts)).map cookOld = ts :=
+  Genshi.Tmpl.Scan.scan_old_print_roundtrip ts wf
+
+example : printOld [.text cs!"a#b\n", .line cs!" \t" cs!"if x", .line [] cs!"# note", .text cs!"z "] =
+    cs!"a\\#b\n \t#if x\n## note\nz " := by decide
+
+/-- **Inversion of the reader, old syntax, on token lists**: under `ttoksOkOld` (= `ttoksOk`, no `#`
+    in texts, and the line discipline `lineStarts`: a directive line starts the template or follows a
+    directive line or a text that ends with a line feed). -/
+theorem raw_print_roundtrip_tokens_old (st : Bool) (ts : List TTok) (h : ttoksOkOld st ts = true)
+    (hm : Genshi.Py.Lex.unmodelled (ttoksOld ts) = false) : rawToks true st (ttoksOld ts) = .ok ts :=
+  rawToks_print_flat_old st ts h hm
+
+/-- **Inversion of the reader, old syntax**: `rawToks (print ns) = toTokss ns` for every text-template
+    AST with `nodesOkOld` (the scanner with `^` at line starts, `\#`, `lstrip()[1:].split(None, 1)`, the
+    value keeping its line feed, tokenizer, reader). -/
+theorem raw_print_roundtrip_old (st : Bool) (ns : List TNode) (h : nodesOkOld st ns = true)
+    (hm : Genshi.Py.Lex.unmodelled (nodesOld ns) = false) : rawToks true st (nodesOld ns) = .ok (toTokss ns) :=
+  rawToks_print_old st ns h hm
+
+/-- `impl_eq_doc` about the source text of an old-syntax template. -/
+theorem source_text_eq_doc_old (st : Bool) (ns : List TNode) (data : Env) (o : List Event)
+    (h : nodesOkOld st ns = true) (hm : Genshi.Py.Lex.unmodelled (nodesOld ns) = false) :
+    (∃ n, docRender n ns data = .ok o) ↔ (∃ m, renderRaw m true st (nodesOld ns) data = .ok (.ok o)) := by
+  have h0 : nodesOk st ns = true := by simp only [nodesOkOld, Bool.and_eq_true] at h; exact h.1.1
+  rw [impl_eq_doc ns data o (nodesOk_text st ns h0).2]
+  simp only [renderRaw_print_old st ns h hm, Except.ok.injEq]
+
+private def exInvOld : List TNode :=
+  [.text cs!"a 50%\n",
+   .delem (.def_ cs!"f" [(cs!"x", none), (cs!"p", some (.lit (.atom (.str cs!"Z"))))])
+     [.expr (.pure (.var cs!"x")), .text cs!".\n"],
+   .delem (.choose none) [.delem (.when (some (.var cs!"w"))) [.text cs!"b\n"], .delem .otherwise []],
+   .expr (.call (.var cs!"f") [(none, .lit (.atom (.int 1))), (some cs!"p", .lit (.atom .none))])]
+
+example : nodesOld exInvOld =
+    cs!"a 50%\n#def f(x, p='Z')\n${x}.\n#end\n#choose\n#when w\nb\n#end\n#otherwise\n#end\n#end\n${f(1, p=None)}" := by
+  decide
+
+example : nodesOkOld false exInvOld = true ∧ Genshi.Py.Lex.unmodelled (nodesOld exInvOld) = false := by decide
+
+example : rawToks true false (nodesOld exInvOld) = .ok (toTokss exInvOld) :=
+  raw_print_roundtrip_old false exInvOld (by decide) (by decide)
 
 end Inversion
 
